@@ -128,7 +128,10 @@ SendTicks(ops, i, c) ==
   IF i > Len(ops) THEN <<>>
   ELSE LET op == ops[i] IN
        (IF op.op = "send"
-        THEN [j \in 1..op.n |-> [k |-> "add", ty |-> op.ty, uid |-> c.uid \o "." \o c.step \o op.ty \o ToString(j - 1), evk |-> j - 1,
+        THEN [j \in 1..op.n |-> [k |-> "add", ty |-> op.ty,
+                                 uid |-> IF op.same THEN c.uid \o "." \o c.step \o op.ty         \* equal-valued events
+                                         ELSE c.uid \o "." \o c.step \o op.ty \o ToString(j - 1),
+                                 evk |-> IF op.same THEN 0 ELSE j - 1,
                                  target |-> op.target, att |-> -1, first |-> -1, last_exc |-> "none", rc |-> c.rc]]
         ELSE <<>>) \o SendTicks(ops, i + 1, c)
 
